@@ -985,7 +985,7 @@ def rule_combinators(chk: Check):
     vararg = f.node.args.vararg.arg if f.node.args.vararg else None
     if vararg is None:
         und = "seq_alts takes no *alternatives"
-    for n in range(0, 4):
+    for n in range(0, 5 if chk.tier == "thorough" else 4):
         if und or bad:
             break
         for combo in _it.product(range(len(outcomes)), repeat=n):
@@ -1053,7 +1053,7 @@ def rule_combinators(chk: Check):
     parser_cls = next((c for c in ast.walk(ix.modules[repo.SUBHEADER]) if isinstance(c, ast.ClassDef) and c.name == "Parser"), None)
     methods = {m.name: m for m in (parser_cls.body if parser_cls else []) if isinstance(m, ast.FunctionDef)}
     bad, und = [], ""
-    for n in range(0, 6):
+    for n in range(0, 8 if chk.tier == "thorough" else 6):
         if bad or und:
             break
         for stream in _it2.product("esx", repeat=n):
@@ -1180,6 +1180,8 @@ def rule_combinators(chk: Check):
                                              "self._index >= len(self._tokens)") and body_ok, R, "Tokenizer.peek", f.where,
                 "`peek` must fetch (and append) tokens only while the index is at the end of the cache and return the token at the index",
                 which="peek")
+    from .bufeval import rule_buffer_evaluation as _rbe
+    _rbe(chk, "peek", R)
     # left recursion by seed growing: the wrapper, evaluated from source around the rule  r: r '+' 'n' | 'n'  on every token stream
     # of length <= 6 over {n, +, x}, must return the left-nested parse of the longest prefix n(+n)*, leave the position right after
     # it (at the start on failure), cache exactly that, answer a second call from the cache, and do the same when tracing
@@ -1188,7 +1190,7 @@ def rule_combinators(chk: Check):
     f = fn("memoize_left_rec.memoize_left_rec_wrapper")
     chk.count(R)
     bad, und = [], ""
-    for n in range(0, 7):
+    for n in range(0, 9 if chk.tier == "thorough" else 7):
         if bad or und:
             break
         for stream in _it3.product("n+x", repeat=n):
